@@ -12,6 +12,7 @@ import (
 
 	"github.com/orbs-network/lean-helix-go/services/interfaces"
 	"github.com/orbs-network/lean-helix-go/spec/types/go/primitives"
+	pkgerrors "github.com/pkg/errors"
 )
 
 const InstanceId = primitives.InstanceId(7)
@@ -194,6 +195,11 @@ func (u *BlockUtils) ValidateBlockProposal(ctx context.Context, h primitives.Blo
 		err = errors.New("consumer rejects")
 	}
 	u.Log.Add(Event{Node: u.Node, Kind: EvValidate, H: uint64(h), Hash: string(hash), Sender: string(id), Block: b, Ok: err == nil, CtxErr: ctx.Err() != nil})
+	if err != nil && len(hash) > 0 && hash[0]&1 == 1 {
+		// a validator that ran into a deadline of its own while checking the block against its state: still a rejection — the
+		// context the library handed in is not cancelled
+		err = pkgerrors.Wrap(context.DeadlineExceeded, "could not confirm the block in time: "+err.Error())
+	}
 	return err
 }
 
